@@ -4,9 +4,9 @@
    Trace (one record per line; see harness/fwcore/fwcore_test.go):
      case <k> / cfg ... / probe <names> ; <nonces>
      ev <operation>            followed by the implementation's picks and observations for that operation:
-       pick tok <n|->  pick expired <t,t,..|->
-       out <face> <I|D> <name> <hop|-> <tokhex|->      (sorted)
-       pit <entries>   pitn <entries> <tokens> <queued>   cs <name:stale ..>   dnl <size> <name:nonce ..>
+       pick tok <n|->  pick thr <k>  pick thrs <k,k,..|->  pick expired <t,t,..|->
+       out <thread> <face> <I|D> <name> <hop|-> <tokhex|->      (sorted; thread = forwarding thread that sent it)
+       per thread k:  pit <k> <entries>   pitn <k> <entries> <tokens> <queued>   cs <k> <name:stale ..>   dnl <k> <size> <name:nonce ..>
      end
    Output:
      DIVERGE <case> <event#> <what> model=[..] impl=[..]      model and implementation disagree on an observable
@@ -96,38 +96,40 @@ let impl_pending (pitl : string) (nm : string) (cbp : string) (mbf : string) (hi
 (* ---------------------------------------------------------------- parsing *)
 let fields (l : string) : string list = List.filter (fun s -> s <> "") (String.split_on_char ' ' l)
 
-let parse_event (f : string list) : ev =
+let parse_event (f : string list) : wev =
   match f with
   | ["face"; "add"; id; loc; lt] ->
-      EFaceAdd { f_id = n_of_dec id; f_local = (loc = "1");
-                 f_link = (match lt with "1" -> MultiAccess | "2" -> AdHoc | _ -> P2P) }
-  | ["face"; "del"; id] -> EFaceDel (n_of_dec id)
-  | ["fib"; "ins"; n; fc; c] -> EFibIns (name_of_string n, n_of_dec fc, n_of_dec c)
-  | ["fib"; "rem"; n; fc] -> EFibRem (name_of_string n, n_of_dec fc)
-  | ["fib"; "clr"; n] -> EFibClr (name_of_string n)
-  | ["strat"; "set"; n; s] -> EStratSet (name_of_string n, n_of_dec s)
-  | ["strat"; "unset"; n] -> EStratUnset (name_of_string n)
-  | ["cs"; a; s] -> ECsFlags (a = "1", s = "1")
-  | ["sleep"; d] -> ESleep (n_of_dec d)
-  | ["tick"; now] -> ETick (n_of_dec now)
-  | ["sweep"; now] -> ESweep (n_of_dec now)
+      WGlobal (EFaceAdd { f_id = n_of_dec id; f_local = (loc = "1");
+                          f_link = (match lt with "1" -> MultiAccess | "2" -> AdHoc | _ -> P2P) })
+  | ["face"; "del"; id] -> WGlobal (EFaceDel (n_of_dec id))
+  | ["fib"; "ins"; n; fc; c] -> WGlobal (EFibIns (name_of_string n, n_of_dec fc, n_of_dec c))
+  | ["fib"; "rem"; n; fc] -> WGlobal (EFibRem (name_of_string n, n_of_dec fc))
+  | ["fib"; "clr"; n] -> WGlobal (EFibClr (name_of_string n))
+  | ["strat"; "set"; n; s] -> WGlobal (EStratSet (name_of_string n, n_of_dec s))
+  | ["strat"; "unset"; n] -> WGlobal (EStratUnset (name_of_string n))
+  | ["cs"; a; s] -> WGlobal (ECsFlags (a = "1", s = "1"))
+  | ["sleep"; d] -> WGlobal (ESleep (n_of_dec d))
+  | ["tick"; k; now] -> WLocal (n_of_dec k, ETick (n_of_dec now))
+  | ["sweep"; k; now] -> WLocal (n_of_dec k, ESweep (n_of_dec now))
   | ["int"; now; fc; n; cbp; mbf; nonce; life; hop; hints; tok; nhf] ->
-      EInterest (n_of_dec now, {
+      WPacket (EInterest (n_of_dec now, {
         i_face = n_of_dec fc; i_name = name_of_string n; i_cbp = (cbp = "1"); i_mbf = (mbf = "1");
         i_nonce = optn nonce; i_life = (match optn life with Some l -> Some (ms_to_ns l) | None -> None);
         i_hop = optn hop;
         i_hints = (if hints = "-" then [] else List.map name_of_string (String.split_on_char ';' hints));
-        i_tok = bytes_of_hex tok; i_nhf = optn nhf })
+        i_tok = bytes_of_hex tok; i_nhf = optn nhf }))
   | ["data"; now; fc; n; fresh; tok] ->
-      EData (n_of_dec now, { d_face = n_of_dec fc; d_name = name_of_string n;
+      WPacket (EData (n_of_dec now, { d_face = n_of_dec fc; d_name = name_of_string n;
                              d_fresh = (match optn fresh with Some l -> Some (ms_to_ns l) | None -> None);
-                             d_tok = bytes_of_hex tok })
+                             d_tok = bytes_of_hex tok }))
   | _ -> failwith ("bad event: " ^ String.concat " " f)
 
-type block = { mutable evl : string list; mutable picks : (string * string) list; mutable outs : string list;
-               mutable pit : string; mutable pitn : string; mutable cs : string; mutable dnl : string }
+type block = { mutable evl : string list; mutable picks : (string * string) list; mutable outs : (int * string) list;
+               bpit : (int, string) Hashtbl.t; bpitn : (int, string) Hashtbl.t; bcs : (int, string) Hashtbl.t;
+               bdnl : (int, string) Hashtbl.t }
 
 let strat_of_name (s : fw) (n : name) : n = strat_of s.strat n
+let hget t k d = try Hashtbl.find t k with Not_found -> d
 
 let () =
   let prop = if Array.length Sys.argv > 1 then Sys.argv.(1) else "ALL" in
@@ -137,6 +139,8 @@ let () =
   let lines = Array.of_list (List.rev !lines) in
   let nl = Array.length lines in
   let ncases = ref 0 and nevents = ref 0 in
+  let stats = Hashtbl.create 16 in
+  let bump k = Hashtbl.replace stats k (1 + (try Hashtbl.find stats k with Not_found -> 0)) in
   let i = ref 0 in
   while !i < nl do
     let l = lines.(!i) in
@@ -145,15 +149,21 @@ let () =
       incr ncases;
       incr i;
       (* cfg *)
-      let region = ref [] and dlife = ref (n_of_int 6000000000) in
+      let region = ref [] and dlife = ref (n_of_int 6000000000) and nthreads = ref 1 in
       let probe_names = ref [] and probe_nonces = ref [] in
-      while !i < nl && (let f = fields lines.(!i) in f <> [] && (List.hd f = "cfg" || List.hd f = "probe")) do
+      let hash_tbl = Hashtbl.create 64 in
+      while !i < nl && (let f = fields lines.(!i) in f <> [] && (List.hd f = "cfg" || List.hd f = "probe" || List.hd f = "hash")) do
         let f = fields lines.(!i) in
         (match f with
          | "cfg" :: kv ->
              List.iter (fun s -> match String.split_on_char '=' s with
                  | ["region"; r] -> region := [name_of_string r]
                  | ["dnl"; d] -> dlife := n_of_dec d
+                 | ["threads"; t] -> nthreads := int_of_string t
+                 | _ -> ()) kv
+         | "hash" :: kv ->
+             List.iter (fun s -> match String.split_on_char '=' s with
+                 | [nm; k] -> Hashtbl.replace hash_tbl nm (n_of_dec k)
                  | _ -> ()) kv
          | "probe" :: rest ->
              let rec split acc = function
@@ -166,20 +176,25 @@ let () =
          | _ -> ());
         incr i
       done;
+      let nt = !nthreads in
+      let tN = n_of_int nt in
+      let hfun (n : name) : n = try Hashtbl.find hash_tbl (string_of_name n) with Not_found -> N0 in
       (* blocks *)
       let blocks = ref [] in
       let cur = ref None in
       let fin () = match !cur with Some b -> blocks := b :: !blocks; cur := None | None -> () in
+      let withb f = match !cur with Some b -> f b | None -> () in
       while !i < nl && lines.(!i) <> "end" && not (String.length lines.(!i) >= 5 && String.sub lines.(!i) 0 5 = "case ") do
         let f = fields lines.(!i) in
         (match f with
-         | "ev" :: rest -> fin (); cur := Some { evl = rest; picks = []; outs = []; pit = "pit"; pitn = ""; cs = "cs "; dnl = "" }
-         | "pick" :: k :: v :: _ -> (match !cur with Some b -> b.picks <- (k, v) :: b.picks | None -> ())
-         | "out" :: rest -> (match !cur with Some b -> b.outs <- String.concat " " rest :: b.outs | None -> ())
-         | "pit" :: rest -> (match !cur with Some b -> b.pit <- String.concat " " ("pit" :: rest) | None -> ())
-         | "pitn" :: _ -> (match !cur with Some b -> b.pitn <- String.concat " " f | None -> ())
-         | "cs" :: rest -> (match !cur with Some b -> b.cs <- (if rest = [] then "cs " else "cs " ^ String.concat " " rest) | None -> ())
-         | "dnl" :: n :: rest -> (match !cur with Some b -> b.dnl <- Printf.sprintf "dnl %s %s" n (String.concat " " rest) | None -> ())
+         | "ev" :: rest -> fin (); cur := Some { evl = rest; picks = []; outs = []; bpit = Hashtbl.create 4; bpitn = Hashtbl.create 4;
+                                                 bcs = Hashtbl.create 4; bdnl = Hashtbl.create 4 }
+         | "pick" :: k :: v :: _ -> withb (fun b -> b.picks <- (k, v) :: b.picks)
+         | "out" :: k :: rest -> withb (fun b -> b.outs <- (int_of_string k, String.concat " " rest) :: b.outs)
+         | "pit" :: k :: rest -> withb (fun b -> Hashtbl.replace b.bpit (int_of_string k) (String.concat " " ("pit" :: rest)))
+         | "pitn" :: k :: rest -> withb (fun b -> Hashtbl.replace b.bpitn (int_of_string k) (String.concat " " ("pitn" :: rest)))
+         | "cs" :: k :: rest -> withb (fun b -> Hashtbl.replace b.bcs (int_of_string k) (if rest = [] then "cs " else "cs " ^ String.concat " " rest))
+         | "dnl" :: k :: n :: rest -> withb (fun b -> Hashtbl.replace b.bdnl (int_of_string k) (Printf.sprintf "dnl %s %s" n (String.concat " " rest)))
          | _ -> ());
         incr i
       done;
@@ -187,135 +202,184 @@ let () =
       if !i < nl && lines.(!i) = "end" then incr i;
       let blocks = List.rev !blocks in
       (* replay *)
-      let st = ref (init !region !dlife) in
+      let ws = ref (winit !region !dlife (let rec nat_of k = if k = 0 then O else S (nat_of (k - 1)) in nat_of nt)) in
       let evno = ref 0 in
       let kinds = Hashtbl.create 8 in
       let changed = ref false in
-      let prev_obs = ref ("pit", "cs ", "") in
+      let prev_obs = ref None in
       let diverged = ref false in
-      let sp = ref [] in   (* C01: the pending table computed from the history and the implementation's observations *)
+      let sp = Array.make nt [] in   (* C01: per-thread pending tables computed from the history and the implementation's observations *)
       List.iter (fun b ->
         incr evno; incr nevents;
         Hashtbl.replace kinds (List.hd b.evl) ();
-        let e = parse_event b.evl in
+        let we = parse_event b.evl in
         let outs_impl = List.sort compare b.outs in
+        let outs_impl_str = String.concat "; " (List.map (fun (k, s) -> Printf.sprintf "%d:%s" k s) outs_impl) in
         let pick k = try Some (List.assoc k b.picks) with Not_found -> None in
-        let first_out kind = List.find_map (fun s -> match fields s with
+        let first_out kind = List.find_map (fun (_, s) -> match fields s with
             | fc :: k :: nm :: _ when k = kind -> Some (fc, nm) | _ -> None) outs_impl in
         let ch = {
           ch_tok = (match pick "tok" with Some "-" | None -> N0 | Some t -> n_of_dec t);
           ch_tie = (match first_out "I" with Some (fc, _) -> Some (n_of_dec fc) | None -> None);
           ch_cs = (match first_out "D" with Some (_, nm) -> Some (name_of_string nm) | None -> None);
           ch_expired = (match pick "expired" with Some "-" | None -> [] | Some s -> List.map n_of_dec (String.split_on_char ',' s)) } in
-        let pre = !st in
-        let r = step pre e ch in
-        st := r.r_st;
+        let pre_ws = !ws in
+        let pre k = List.nth pre_ws k in
+        let pre0 = pre 0 in
+        let (((ws', outs_model), ok), panic) = wstep tN hfun pre_ws we ch in
+        ws := ws';
+        let thr_of_name (n : name) = int_of_n (hfun n) in
         if not !diverged then begin
-          let outs_model = List.sort compare (List.map string_of_out r.r_outs) in
           let dv what m im = diverged := true;
             Printf.printf "DIVERGE %s %d %s model=[%s] impl=[%s]\n" caseid !evno what m im in
-          if outs_model <> outs_impl then dv "outputs" (String.concat "; " outs_model) (String.concat "; " outs_impl)
-          else if pit_line r.r_st.pit <> b.pit then dv "pit" (pit_line r.r_st.pit) b.pit
-          else if pitn_line r.r_st.pit <> b.pitn then dv "pit-counters" (pitn_line r.r_st.pit) b.pitn
-          else if cs_line r.r_st.cs <> b.cs then dv "cs" (cs_line r.r_st.cs) b.cs
-          else if String.trim (dnl_line r.r_st !probe_names !probe_nonces) <> String.trim b.dnl then
-            dv "dnl" (dnl_line r.r_st !probe_names !probe_nonces) b.dnl
-          else if not r.r_ok then dv "choice-inadmissible" "the implementation's pick is outside the model's admissible set" (String.concat "; " outs_impl)
-          else if r.r_panic then dv "panic" "model predicts an out-of-range index" ""
+          let outs_model_s = List.sort compare (List.concat_map (fun (k, os) -> List.map (fun o -> (int_of_n k, string_of_out o)) os) outs_model) in
+          (* dispatch cross-check *)
+          (match we, pick "thr", pick "thrs" with
+           | WPacket (EInterest (_, i)), Some t, _ when int_of_string t <> thr_of_name i.i_name ->
+               dv "dispatch-interest" (string_of_int (thr_of_name i.i_name)) t
+           | WPacket (EData (_, d)), _, Some ts ->
+               let (m, _) = dispatch_data tN hfun d in
+               let ms = List.sort compare (List.map int_of_n m) in
+               let is = if ts = "-" then [] else List.sort compare (List.map int_of_string (String.split_on_char ',' ts)) in
+               if ms <> is then dv "dispatch-data" (String.concat "," (List.map string_of_int ms)) ts
+           | _ -> ());
+          if not !diverged then begin
+            if outs_model_s <> outs_impl then
+              dv "outputs" (String.concat "; " (List.map (fun (k, s) -> Printf.sprintf "%d:%s" k s) outs_model_s)) outs_impl_str
+            else begin
+              List.iteri (fun k s ->
+                if not !diverged then begin
+                  if pit_line s.pit <> hget b.bpit k "pit" then dv (Printf.sprintf "pit@%d" k) (pit_line s.pit) (hget b.bpit k "pit")
+                  else if pitn_line s.pit <> hget b.bpitn k "" then dv (Printf.sprintf "pit-counters@%d" k) (pitn_line s.pit) (hget b.bpitn k "")
+                  else if cs_line s.cs <> hget b.bcs k "cs " then dv (Printf.sprintf "cs@%d" k) (cs_line s.cs) (hget b.bcs k "cs ")
+                  else if String.trim (dnl_line s !probe_names !probe_nonces) <> String.trim (hget b.bdnl k "") then
+                    dv (Printf.sprintf "dnl@%d" k) (dnl_line s !probe_names !probe_nonces) (hget b.bdnl k "")
+                end) ws';
+              if not !diverged && not ok then dv "choice-inadmissible" "the implementation's pick is outside the model's admissible set" outs_impl_str
+              else if not !diverged && panic then dv "panic" "model predicts an out-of-range index" ""
+            end
+          end
         end;
-        (* ---- oracles on the implementation's observations; faces are the model's (they are set by events only) *)
-        let outs_impl_parsed = List.filter_map (fun s -> match fields s with
-            | [fc; k; nm; hop; tok] -> Some { o_face = n_of_dec fc; o_kind = (if k = "I" then KInterest else KData);
-                                              o_name = name_of_string nm; o_hop = optn hop; o_tok = bytes_of_hex tok }
-            | _ -> None) outs_impl in
+        (* ---- oracles on the implementation's observations; the state before the event is the model's, which has been compared
+                with the implementation's dumps after every earlier event *)
+        let parse_out s = match fields s with
+          | [fc; k; nm; hop; tok] -> Some { o_face = n_of_dec fc; o_kind = (if k = "I" then KInterest else KData);
+                                            o_name = name_of_string nm; o_hop = optn hop; o_tok = bytes_of_hex tok }
+          | _ -> None in
+        let outs_of k = List.filter_map (fun (t, s) -> if t = k then parse_out s else None) outs_impl in
+        let outs_all = List.filter_map (fun (_, s) -> parse_out s) outs_impl in
+        let obs_now = (List.init nt (fun k -> (hget b.bpit k "pit", hget b.bcs k "cs ", hget b.bdnl k ""))) in
+        (* statistics for the coverage distribution *)
+        (match we with
+         | WPacket (EInterest (now, i)) ->
+             let s = pre (thr_of_name i.i_name) in
+             if c02_must_drop s i then bump ("interest:must-drop:" ^ (match int_of_n (c02_drop_reason s i) with
+                 | 1 -> "unknown-face" | 2 -> "hop-limit-0" | 3 -> "scope" | 4 -> "no-nonce" | 5 -> "dead-nonce" | 6 -> "duplicate-nonce" | _ -> "?"))
+             else if c02_cached s now i then bump "interest:cached"
+             else if c02_suppressed s now i then bump "interest:suppressed"
+             else if i.i_nhf <> None then bump "interest:nexthopfaceid"
+             else if List.exists (fun (_, o) -> match fields o with _ :: "I" :: _ -> true | _ -> false) outs_impl then bump "interest:forwarded"
+             else bump "interest:no-usable-nexthop"
+         | WPacket (EData (_, d)) ->
+             let n = List.length outs_impl in
+             bump (if n = 0 then "data:unsolicited-or-dropped" else if n = 1 then "data:one-copy" else "data:several-copies");
+             if List.length d.d_tok = 6 then bump "data:token6" else if d.d_tok = [] then bump "data:no-token" else bump "data:token-other"
+         | _ -> ());
+        if nt > 1 then bump "events:multi-thread" else bump "events:single-thread";
         if want "C09" then begin
           List.iter (fun o ->
-            if not (c09_out_ok pre.faces o) then
+            if not (c09_out_ok pre0.faces o) then
               Printf.printf "ORACLE C09 %s %d scope-out:%s:%s | %s sent on non-local face %s\n" caseid !evno
                 (match o.o_kind with KInterest -> "interest" | KData -> "data")
-                (match e with EInterest (_, i) -> (if i.i_nhf <> None then "nexthopfaceid" else "strategy") | _ -> "data-path")
-                (string_of_name o.o_name) (dec_of_n o.o_face)) outs_impl_parsed;
-          let inbound = match e with
-            | EInterest (_, i) -> c09_inbound_violation pre.faces i.i_face i.i_name
-            | EData (_, d) -> c09_inbound_violation pre.faces d.d_face d.d_name
+                (match we with WPacket (EInterest (_, i)) -> (if i.i_nhf <> None then "nexthopfaceid" else "strategy") | _ -> "data-path")
+                (string_of_name o.o_name) (dec_of_n o.o_face)) outs_all;
+          let inbound = match we with
+            | WPacket (EInterest (_, i)) -> c09_inbound_violation pre0.faces i.i_face i.i_name
+            | WPacket (EData (_, d)) -> c09_inbound_violation pre0.faces d.d_face d.d_name
             | _ -> false in
-          let (ppit, pcs, pdnl) = !prev_obs in
-          if inbound && (outs_impl <> [] || b.pit <> ppit || b.cs <> pcs || b.dnl <> pdnl) then
+          if inbound && (outs_impl <> [] || (match !prev_obs with Some p -> p <> obs_now | None -> false)) then
             Printf.printf "ORACLE C09 %s %d scope-in | a /localhost packet from a non-local face was not ignored (outputs or table state changed)\n" caseid !evno
         end;
         if want "C01" then begin
-          let tidv = pre.tid in
-          (match e with
-           | EData (now, d) ->
-               if not (c01_data_only_pending pre.faces tidv !sp d outs_impl_parsed) then
-                 Printf.printf "ORACLE C01 %s %d data-not-pending:%s | Data %s (token %s) from face %s was emitted to a face without a matching pending Interest, with a wrong token, or twice: [%s]\n"
-                   caseid !evno (if d.d_tok = [] then "no-token" else if List.length d.d_tok = 6 then "token6" else "token-other")
-                   (string_of_name d.d_name) (hex_of_bytes d.d_tok) (dec_of_n d.d_face) (String.concat "; " outs_impl);
-               if not (c01_data_complete pre.faces tidv now !sp d outs_impl_parsed) then begin
-                 let missing = List.filter (fun p -> sat_rec tidv d p && N.ltb now p.p_exp && not (N.eqb p.p_face d.d_face)) !sp in
-                 let why =
-                   if d.d_name = [] then "empty-name"
-                   else if List.exists (fun p -> p.p_dtok <> [] && List.length p.p_dtok <> 6) missing then "x" else "y" in
-                 ignore why;
-                 Printf.printf "ORACLE C01 %s %d data-undelivered:%s:%s | Data %s (token %s) from face %s was not delivered to every face with a live pending Interest it satisfies; sent [%s]; pending: %s\n"
-                   caseid !evno (if d.d_tok = [] then "no-token" else if List.length d.d_tok = 6 then "token6" else "token-other")
-                   (if d.d_name = [] then "empty-name" else "name")
-                   (string_of_name d.d_name) (hex_of_bytes d.d_tok) (dec_of_n d.d_face) (String.concat "; " outs_impl)
-                   (String.concat "; " (List.map (fun p -> Printf.sprintf "face %s %s cbp=%s tok=%s utok=%s" (dec_of_n p.p_face) (string_of_name p.p_name) (b01 p.p_cbp) (hex_of_bytes p.p_dtok) (dec_of_n p.p_utok)) missing))
-               end;
-               sp := pend_data pre.faces tidv !sp d
-           | EInterest (now, i) ->
-               if not (c01_cs_reply_ok i outs_impl_parsed) then
+          (match we with
+           | WPacket (EData (now, d)) ->
+               let tokkind = if d.d_tok = [] then "no-token" else if List.length d.d_tok = 6 then "token6" else "token-other" in
+               for k = 0 to nt - 1 do
+                 let s = pre k in
+                 let os = outs_of k in
+                 let os_str = String.concat "; " (List.map string_of_out os) in
+                 if not (c01_data_only_pending s.faces s.tid sp.(k) d os) then
+                   Printf.printf "ORACLE C01 %s %d data-not-pending:%s | Data %s (token %s) from face %s was emitted by thread %d to a face without a matching pending Interest, with a wrong token, or twice: [%s]\n"
+                     caseid !evno tokkind (string_of_name d.d_name) (hex_of_bytes d.d_tok) (dec_of_n d.d_face) k os_str;
+                 if not (c01_data_complete s.faces s.tid now sp.(k) d os) then begin
+                   let missing = List.filter (fun p -> sat_rec s.tid d p && N.ltb now p.p_exp && not (N.eqb p.p_face d.d_face)) sp.(k) in
+                   let dispatched = match pick "thrs" with Some ts -> ts <> "-" && List.mem (string_of_int k) (String.split_on_char ',' ts) | None -> true in
+                   Printf.printf "ORACLE C01 %s %d data-undelivered:%s:%s | Data %s (token %s) from face %s was not delivered to every face with a live pending Interest it satisfies (thread %d of %d%s); sent [%s]; pending: %s\n"
+                     caseid !evno tokkind
+                     (if not dispatched then "not-dispatched" else if d.d_name = [] then "empty-name" else "name")
+                     (string_of_name d.d_name) (hex_of_bytes d.d_tok) (dec_of_n d.d_face) k nt
+                     (if dispatched then "" else ", which the link service did not dispatch the Data to") os_str
+                     (String.concat "; " (List.map (fun p -> Printf.sprintf "face %s %s cbp=%s tok=%s utok=%s" (dec_of_n p.p_face) (string_of_name p.p_name) (b01 p.p_cbp) (hex_of_bytes p.p_dtok) (dec_of_n p.p_utok)) missing))
+                 end;
+                 sp.(k) <- pend_data s.faces s.tid sp.(k) d
+               done
+           | WPacket (EInterest (now, i)) ->
+               let k = (match pick "thr" with Some t -> int_of_string t | None -> thr_of_name i.i_name) in
+               let k = if k < nt then k else 0 in
+               let s = pre k in
+               if not (c01_cs_reply_ok i outs_all) then
                  Printf.printf "ORACLE C01 %s %d cs-reply | the reply to Interest %s from face %s went elsewhere, carried another token, or was sent more than once: [%s]\n"
-                   caseid !evno (string_of_name i.i_name) (dec_of_n i.i_face) (String.concat "; " outs_impl);
-               let hk = match select_hint pre.regions i.i_hints with Some h -> string_of_name h | None -> "-" in
-               (* the PIT token attached upstream must be this forwarder's: thread id ++ token of the Interest's PIT entry *)
+                   caseid !evno (string_of_name i.i_name) (dec_of_n i.i_face) outs_impl_str;
+               let hk = match select_hint s.regions i.i_hints with Some h -> string_of_name h | None -> "-" in
                (match pick "tok" with
                 | Some t when t <> "-" ->
-                    List.iter (fun o -> if o.o_kind = KInterest && o.o_tok <> up_token tidv (n_of_dec t) then
+                    List.iter (fun o -> if o.o_kind = KInterest && o.o_tok <> up_token s.tid (n_of_dec t) then
                       Printf.printf "ORACLE C01 %s %d upstream-token:%s | Interest %s was forwarded on face %s with PIT token %s, not this forwarder's token %s for its PIT entry (the returning Data cannot be matched)\n"
                         caseid !evno (if i.i_nhf <> None then "nexthopfaceid" else "strategy") (string_of_name i.i_name) (dec_of_n o.o_face)
-                        (hex_of_bytes o.o_tok) (hex_of_bytes (up_token tidv (n_of_dec t)))) outs_impl_parsed
+                        (hex_of_bytes o.o_tok) (hex_of_bytes (up_token s.tid (n_of_dec t)))) outs_all
                 | _ -> ());
-               (match impl_pending b.pit (string_of_name i.i_name) (b01 i.i_cbp) (b01 i.i_mbf) hk (dec_of_n i.i_face) (dec_of_n now) with
-                | Some tok -> sp := pend_interest pre.regions !sp now i (n_of_dec tok)
+               (match impl_pending (hget b.bpit k "pit") (string_of_name i.i_name) (b01 i.i_cbp) (b01 i.i_mbf) hk (dec_of_n i.i_face) (dec_of_n now) with
+                | Some tok -> sp.(k) <- pend_interest s.regions sp.(k) now i (n_of_dec tok)
                 | None -> ())
-           | ETick now ->
-               if outs_impl <> [] then Printf.printf "ORACLE C01 %s %d spontaneous | a PIT update emitted packets: [%s]\n" caseid !evno (String.concat "; " outs_impl);
-               sp := pend_tick !sp now
+           | WLocal (k, ETick now) ->
+               if outs_impl <> [] then Printf.printf "ORACLE C01 %s %d spontaneous | a PIT update emitted packets: [%s]\n" caseid !evno outs_impl_str;
+               let k = int_of_n k in if k < nt then sp.(k) <- pend_tick sp.(k) now
            | _ ->
-               if outs_impl <> [] then Printf.printf "ORACLE C01 %s %d spontaneous | an event that is not a packet arrival emitted packets: [%s]\n" caseid !evno (String.concat "; " outs_impl))
+               if outs_impl <> [] then Printf.printf "ORACLE C01 %s %d spontaneous | an event that is not a packet arrival emitted packets: [%s]\n" caseid !evno outs_impl_str)
         end;
-        if want "C02" then begin
-          (match e with
-           | EInterest (now, i) ->
+        if want "C02" && not !diverged then begin
+          (match we with
+           | WPacket (EInterest (now, i)) ->
+               let k = thr_of_name i.i_name in
+               let s = pre (if k < nt then k else 0) in
                let fail sg what = Printf.printf "ORACLE C02 %s %d %s | Interest %s from face %s (nonce %s, hop %s, nexthopfaceid %s): %s; sent [%s]\n" caseid !evno sg
                    (string_of_name i.i_name) (dec_of_n i.i_face) (match i.i_nonce with Some x -> dec_of_n x | None -> "-")
                    (match i.i_hop with Some x -> dec_of_n x | None -> "-") (match i.i_nhf with Some x -> dec_of_n x | None -> "-")
-                   what (String.concat "; " outs_impl) in
-               let via = if i.i_nhf <> None then "nexthopfaceid" else if N.eqb (strat_of_name pre i.i_name) (n_of_int 1) then "multicast" else "best-route" in
-               if not (c02_outs_ok pre i outs_impl_parsed) then
+                   what outs_impl_str in
+               let via = if i.i_nhf <> None then "nexthopfaceid" else if N.eqb (strat_of_name s i.i_name) (n_of_int 1) then "multicast" else "best-route" in
+               if not (c02_outs_ok s i outs_all) then
                  fail ("bad-nexthop:" ^ via) "forwarded to a face that is not a next hop of the longest-prefix FIB entry (or the chosen next hop), back to its point-to-point arrival face, or with a wrong name/hop limit";
-               if not (c02_drop_ok pre i outs_impl_parsed) then
+               if not (c02_drop_ok s i outs_all) then
                  fail "not-dropped" "must be dropped (hop limit 0, no nonce, dead nonce, duplicate nonce from another face, scope) but packets were sent";
-               if not (c02_suppress_ok pre now i outs_impl_parsed) then
+               if not (c02_suppress_ok s now i outs_all) then
                  fail ("not-suppressed:" ^ via) "a different-nonce retransmission inside the suppression interval was forwarded";
-               if not (c02_strategy_ok pre i outs_impl_parsed) then
+               if not (c02_strategy_ok s i outs_all) then
                  fail ("strategy:" ^ via) "best-route did not pick one lowest-cost usable next hop / multicast did not use exactly the usable next hops";
-               if not (c02_forward_ok pre now i outs_impl_parsed) then
+               if not (c02_forward_ok s now i outs_all) then
                  fail ("not-forwarded:" ^ via) "not dropped, not cached, not suppressed and a usable next hop exists, but no Interest was sent";
-               if not (c02_nodup_ok outs_impl_parsed) then
+               if not (c02_nodup_ok outs_all) then
                  fail ("duplicate:" ^ via) "a face got more than one copy"
            | _ ->
-               if List.exists (fun o -> o.o_kind = KInterest) outs_impl_parsed then
-                 Printf.printf "ORACLE C02 %s %d spontaneous | an Interest was sent although no Interest arrived: [%s]\n" caseid !evno (String.concat "; " outs_impl))
+               if List.exists (fun o -> o.o_kind = KInterest) outs_all then
+                 Printf.printf "ORACLE C02 %s %d spontaneous | an Interest was sent although no Interest arrived: [%s]\n" caseid !evno outs_impl_str)
         end;
-        if outs_impl <> [] || b.pit <> "pit" then changed := true;
-        prev_obs := (b.pit, b.cs, b.dnl)
+        if outs_impl <> [] || List.exists (fun (p, _, _) -> p <> "pit") obs_now then changed := true;
+        prev_obs := Some obs_now
       ) blocks;
       let h = Digest.to_hex (Digest.string (String.concat "\n" (List.map (fun b -> String.concat " " b.evl) blocks))) in
       Printf.printf "CASE %s %d %d %s %s\n" caseid !evno (Hashtbl.length kinds)
         (b01 (Hashtbl.length kinds >= 3 && !changed)) h
     end else incr i
   done;
+  Hashtbl.iter (fun k v -> Printf.printf "STAT %s %d\n" k v) stats;
   Printf.printf "DONE %d %d\n" !ncases !nevents
